@@ -477,3 +477,4 @@ MANIFEST = {
 }
 MANIFEST["text"] += " Cleanup must use a remover of the target's kind (file ↔ os.remove/unlink, directory ↔ rmtree/rmdir)."
 MANIFEST["text"] += ' Verdicts are definite under a closed vocabulary: every effect of the analysed function is classified by a table, is one of five hand-confirmed calls (zarr.group, _recursive_save, write_skip_metadata, zf.write, super().save) or is a helper that was resolved and analysed itself. `if not exists(target)` guards and local aliases of removers (`remove = rmtree if isdir else os.remove`) are resolved.'
+MANIFEST["text"] += ' R1 tolerates a late path re-normalisation that an identical dominating one has made a no-op.'
